@@ -7,6 +7,7 @@
 //! `flmon replay <file>` re-executes the case recorded in a replay file, verbosely.
 //! `flmon child <role> ...` is the entry point for child-process scenarios.
 
+mod child;
 mod ctl;
 mod family;
 mod flw;
@@ -18,11 +19,13 @@ mod p_c07;
 mod p_c08;
 mod p_c09;
 mod p_c12;
+mod p_c13;
 mod p_c14;
 mod p_c15;
 mod p_c16;
 mod p_c17;
 mod p_c18;
+mod p_c20;
 mod rng;
 mod spec;
 mod util;
@@ -42,11 +45,13 @@ fn run_one(prop: &str, ctx: &mut CaseCtx) -> CaseResult {
         "C08" => p_c08::run_case(ctx),
         "C09" => p_c09::run_case(ctx),
         "C12" => p_c12::run_case(ctx),
+        "C13" => p_c13::run_case(ctx),
         "C14" => p_c14::run_case(ctx),
         "C15" => p_c15::run_case(ctx),
         "C16" => p_c16::run_case(ctx),
         "C17" => p_c17::run_case(ctx),
         "C18" => p_c18::run_case(ctx),
+        "C20" => p_c20::run_case(ctx),
         _ => {
             let mut r = CaseResult::new("unknown-property");
             r.inconclusive(format!("no monitor for {prop}"));
@@ -293,6 +298,18 @@ fn main() {
     let argv: Vec<String> = std::env::args().collect();
     let code = match argv.get(1).map(String::as_str) {
         Some("run") => run(&parse_run_args(&argv[2..])),
+        Some("child") => {
+            util::install_panic_hook_printing();
+            let a = child::parse_child_args(&argv[2..]);
+            match (a.prop.as_str(), a.role.as_str()) {
+                ("C20", _) => p_c20::child_main(&a),
+                ("C13", _) => p_c13::child_main(&a),
+                _ => {
+                    eprintln!("no child role {} for {}", a.role, a.prop);
+                    2
+                }
+            }
+        }
         Some("replay") => replay(argv.get(2).map(String::as_str).unwrap_or("")),
         _ => {
             eprintln!("usage: flmon run <PROP> [--seed S --shard J --cases N --secs T --only I --thorough --out F] | replay <file>");
